@@ -316,6 +316,7 @@ pub fn run_json_sweeps(ctx: &Ctx, part: &str, sweeps: &[JsonSweep], pairs: bool,
       }
     }
   }
+  let seed_results: std::sync::Mutex<Vec<(&'static str, bool, String)>> = std::sync::Mutex::new(Vec::new());
   let (n, tr, _, acc) = crate::par_chunks(ctx, &items, |it, local: &mut Local| {
     let e = crate::entry(it.entry);
     let mut n = 0u64;
@@ -323,9 +324,10 @@ pub fn run_json_sweeps(ctx: &Ctx, part: &str, sweeps: &[JsonSweep], pairs: bool,
       None => {
         let t = it.seed.text();
         let out = crate::run1(ctx, e, In::S(&t), local, true);
-        if !out.starts_with("acc") && out != "PANIC" {
-          ctx.require(false, &format!("json seed of {} is not accepted by its entry point ({out}): {}", it.entry, &t[..t.len().min(200)]));
-        }
+        // Whether a seed is accepted is not a property of the subject (recorded, not judged); a rejected seed only
+        // makes the sweep around it shallow. The vacuity guard below fails the run (machinery, exit 2) only when an
+        // entry point accepts NONE of its seeds.
+        seed_results.lock().unwrap().push((it.entry, out.starts_with("acc") || out == "PANIC", t.chars().take(120).collect::<String>()));
         n += 1;
       }
       Some((pi, m)) => {
@@ -353,12 +355,24 @@ pub fn run_json_sweeps(ctx: &Ctx, part: &str, sweeps: &[JsonSweep], pairs: bool,
     }
     (n, n)
   });
+  let mut seed_results = seed_results.into_inner().unwrap();
+  seed_results.sort();
+  let mut rejected_seeds: Vec<vx::Value> = Vec::new();
+  for s in sweeps.iter().filter(|s| crate::only(s.entry)) {
+    let of_entry: Vec<_> = seed_results.iter().filter(|r| r.0 == s.entry).collect();
+    ctx.require(of_entry.iter().any(|r| r.1), &format!("json sweep of {}: none of its {} seed documents is accepted — the sweep is vacuous", s.entry, s.seeds.len()));
+    for r in of_entry.iter().filter(|r| !r.1) {
+      eprintln!("[C05] note: a JSON seed of {} is rejected by its entry point (recorded, not judged): {}", r.0, r.2);
+      rejected_seeds.push(json!({"entry": r.0, "seed_starts_with": r.2}));
+      ctx.outcome(&format!("{} => seed-rejected(not judged)", r.0));
+    }
+  }
   let detail: Vec<_> = sweeps
     .iter()
     .enumerate()
     .map(|(i, s)| json!({"entry": s.entry, "seeds": s.seeds.len(), "nodes": trees.iter().filter(|t| t.0 == i).map(|t| t.2.len()).collect::<Vec<_>>()}))
     .collect();
-  ctx.part(part, json!({"engine": "E1 full product node x mutation", "documents": n, "edges": tr, "accepted_or_panicked": acc, "mutations": N_MUT, "pairs": pairs, "pair_mutations": pair_mutations.iter().map(|m| MUT_NAMES[*m]).collect::<Vec<_>>(), "sweeps": detail}));
+  ctx.part(part, json!({"engine": "E1 full product node x mutation", "documents": n, "edges": tr, "accepted_or_panicked": acc, "mutations": N_MUT, "pairs": pairs, "pair_mutations": pair_mutations.iter().map(|m| MUT_NAMES[*m]).collect::<Vec<_>>(), "rejected_seeds": rejected_seeds, "sweeps": detail}));
 }
 
 // ------------------------------------------------------------------------------------------------ accessors
@@ -488,6 +502,30 @@ pub fn service_accessors(s: &Service) {
     st("LinkedDomainService::id/into");
     bb((l.id().to_string(), Service::from(l.clone()).to_json().is_ok(), format!("{l:?}").len()));
   }
+  // constructors over the URLs of the accepted endpoint (0, 1, n URLs; census: `expect("the len should be 1")`,
+  // `expect("element 0 exists")`) and the serde route of the presentation service
+  st("Linked*Service::new(endpoint urls)");
+  let urls: Vec<Url> = match s.service_endpoint() {
+    ServiceEndpoint::One(u) => vec![u.clone()],
+    ServiceEndpoint::Set(v) => v.iter().cloned().collect(),
+    ServiceEndpoint::Map(m) => m.values().flat_map(|v| v.iter().cloned()).collect(),
+  };
+  for k in [0usize, 1, urls.len()] {
+    let subset: Vec<Url> = urls.iter().take(k).cloned().collect();
+    let set: identity_core::common::OrderedSet<Url> = subset.into_iter().collect();
+    if let Ok(l) = LinkedDomainService::new(s.id().clone(), set.clone(), s.properties().clone()) {
+      bb((l.domains().len(), Service::from(l).to_json().is_ok()));
+    }
+    if let Ok(l) = LinkedVerifiablePresentationService::new(s.id().clone(), set, s.properties().clone()) {
+      bb((l.verifiable_presentation_urls().len(), l.to_json().is_ok()));
+    }
+  }
+  st("LinkedVerifiablePresentationService::from_json(Service::to_json)");
+  if let Ok(j) = s.to_json() {
+    if let Ok(l) = LinkedVerifiablePresentationService::from_json(&j) {
+      bb(l.verifiable_presentation_urls().len());
+    }
+  }
   st("LinkedVerifiablePresentationService::try_from");
   if let Ok(l) = LinkedVerifiablePresentationService::try_from(s.clone()) {
     st("LinkedVerifiablePresentationService::verifiable_presentation_urls");
@@ -574,6 +612,14 @@ pub fn core_document_accessors(d: &CoreDocument) {
   }
   st("CoreDocument::(mutated)>to_json");
   bb(c.to_json().is_ok());
+  st("CoreDocument::controller append");
+  let mut m = d.clone();
+  if let Some(ctrl) = m.controller_mut() {
+    bb(ctrl.append(CoreDID::parse("did:example:appended").unwrap()));
+    bb(ctrl.append(CoreDID::parse("did:example:appended").unwrap()));
+    bb(ctrl.len());
+  }
+  bb(m.to_json().is_ok());
   st("CoreDocument::try_map");
   let mapped = d.clone().try_map(
     |did| Ok::<_, identity_document::Error>(did),
@@ -659,6 +705,69 @@ pub fn entry_accessors(e: &StatusList2021Entry) {
 static STATUS_LIST_CRED: once_cell::sync::Lazy<StatusList2021Credential> = once_cell::sync::Lazy::new(|| StatusList2021Credential::from_json(SEED_STATUS_LIST_CREDENTIAL.as_str()).expect("seed status list credential"));
 static ISSUER_DOC: once_cell::sync::Lazy<CoreDocument> = once_cell::sync::Lazy::new(|| CoreDocument::from_json(SEED_CORE_DOC).expect("seed doc"));
 
+pub fn status_list_cred() -> &'static StatusList2021Credential {
+  &STATUS_LIST_CRED
+}
+
+/// Issuer-side follow-up of an accepted credential: `SdJwtVcBuilder::new_from_credential` (census: builder.rs
+/// `expect`s that the serialised credential is an object with an object-valued `vc`), concealing / decoys at hostile
+/// JSON pointers, `finish` with a real signer (census: `insert_claim(..).expect(..)`, `SdJwtVc::try_from`).
+struct EdSigner;
+#[async_trait::async_trait]
+impl sd_jwt_payload_rework::JwsSigner for EdSigner {
+  type Error = String;
+  async fn sign(&self, header: &sd_jwt_payload_rework::JsonObject, payload: &sd_jwt_payload_rework::JsonObject) -> Result<Vec<u8>, String> {
+    let h = serde_json::to_string(header).map_err(|e| e.to_string())?;
+    let p = serde_json::to_vec(payload).map_err(|e| e.to_string())?;
+    Ok(vx::fx::compact_ed(&h, &p, &crate::tokens::ISSUER_KEY).into_bytes())
+  }
+}
+const POINTERS: [&str; 12] = ["", "/", "/id", "/type/0", "/type/9", "/credentialSubject", "/credentialSubject/id", "/credentialSubject/degree/name", "/issuer", "/a~2b", "credentialSubject", "/credentialSubject/0"];
+pub fn sd_jwt_vc_builder_from_credential(c: &Credential) {
+  use futures::executor::block_on;
+  use identity_credential::sd_jwt_vc::SdJwtVcBuilder;
+  use sd_jwt_payload_rework::Sha256Hasher;
+  st("SdJwtVcBuilder::new_from_credential");
+  if SdJwtVcBuilder::new_from_credential(c.clone(), Sha256Hasher::new()).is_err() {
+    return;
+  }
+  for (i, ptr) in POINTERS.iter().enumerate() {
+    st("SdJwtVcBuilder::new_from_credential");
+    let Ok(b) = SdJwtVcBuilder::new_from_credential(c.clone(), Sha256Hasher::new()) else { return };
+    st("SdJwtVcBuilder::make_concealable/add_decoys");
+    let b = match b.make_concealable(ptr) {
+      Ok(b) => b,
+      Err(_) => match SdJwtVcBuilder::new_from_credential(c.clone(), Sha256Hasher::new()) {
+        Ok(b) => b,
+        Err(_) => return,
+      },
+    };
+    let b = match b.add_decoys(ptr, i % 3) {
+      Ok(b) => b,
+      Err(_) => continue,
+    };
+    // claims: none / the mandatory ones / all of them, with a status
+    let b = match i % 3 {
+      0 => b,
+      1 => b.vct("https://example.com/vct".to_owned()).iss(Url::parse("https://example.com/issuer").unwrap()),
+      _ => b
+        .vct(Url::parse("https://example.com/vct").unwrap())
+        .iss(Url::parse("did:example:123").unwrap())
+        .iat(Timestamp::now_utc())
+        .nbf(Timestamp::from_unix(0).unwrap())
+        .exp(Timestamp::from_unix(253402300799).unwrap())
+        .sub("did:example:subject".to_owned()),
+    };
+    st("SdJwtVcBuilder::finish");
+    if let Ok(vc) = block_on(b.finish(&EdSigner, "EdDSA")) {
+      st("SdJwtVcBuilder::finish>SdJwtVc accessors");
+      bb((vc.to_string().len(), vc.claims().to_json().is_ok(), vc.clone().into_disclosed_object(&Sha256Hasher::new()).is_ok()));
+      st("SdJwtVcBuilder::finish>SdJwtVc::parse");
+      bb(identity_credential::sd_jwt_vc::SdJwtVc::parse(&vc.to_string()).is_ok());
+    }
+  }
+}
+
 pub fn credential_accessors(c: &Credential) {
   st("Credential::fields");
   bb((c.context.len(), c.id.as_ref().map(|u| u.to_string()), c.types.len(), c.credential_subject.len(), c.issuer.url().to_string(), c.issuance_date.to_rfc3339(), c.expiration_date.map(|t| t.to_rfc3339()), c.non_transferable, c.properties.len()));
@@ -708,10 +817,18 @@ pub fn credential_accessors(c: &Credential) {
   if let Ok(s) = StatusList2021Credential::try_from(c.clone()) {
     status_list_credential_accessors(&s, false);
   }
+  st("OneOrMany::push");
+  let mut t = c.types.clone();
+  t.push("T1".to_owned());
+  t.push("T2".to_owned());
+  let mut x = c.context.clone();
+  x.push(identity_core::common::Context::Url(Url::parse("https://example.com/ctx").unwrap()));
+  bb((t.len(), x.len()));
   st("Credential::set_proof");
   let mut m = c.clone();
   m.set_proof(None);
   bb(m.to_json().is_ok());
+  sd_jwt_vc_builder_from_credential(c);
 }
 
 pub fn status_list_credential_accessors(s: &StatusList2021Credential, deep: bool) {
@@ -894,6 +1011,13 @@ fn e_sd_jwt_vc_metadata(s: &str) -> Out {
     for cred in [json!({}), json!({"vct":"https://example.com/education_credential","name":"x","address":{"street_address":"s","locality":1},"degrees":[{"name":"a"},{"name":2}], "nationalities":["a"]}), json!(null), json!([1])] {
       bb(t.validate_credential(&cred).is_ok());
     }
+    st("TypeMetadata::validate_credential_with_resolver");
+    for mode in crate::census::ALL_MODES {
+      let r = crate::census::HostileResolver(mode);
+      for cred in [json!({"vct":"https://example.com/education_credential","name":"x"}), json!([1])] {
+        bb(futures::executor::block_on(t.validate_credential_with_resolver(&cred, &r)).is_ok());
+      }
+    }
     for c in t.claim_metadata() {
       st("ClaimMetadata::check_value_disclosability");
       bb((c.check_value_disclosability(&json!({"name":"x","degrees":[{"name":"a"}]})).is_ok(), c.check_value_disclosability(&json!(null)).is_ok(), c.path.to_string(), format!("{c:?}").len()));
@@ -934,7 +1058,9 @@ fn e_domain_linkage(s: &str) -> Out {
       bb((c.to_json().is_ok(), c.to_string().len(), format!("{c:?}").len()));
       st("JwtDomainLinkageValidator::validate_linkage");
       let v = identity_credential::domain_linkage::JwtDomainLinkageValidator::with_signature_verifier(vx::fx::AlwaysOk);
-      bb(v.validate_linkage(&*ISSUER_DOC, &c, &Url::parse("https://example.com").unwrap(), &Default::default()).is_ok());
+      for domain in ["https://example.com", "https://example.com:8443/path?q#f", "http://example.com", "https://xn--nxasmq6b.example", "did:example:123", "data:,x"] {
+        bb(v.validate_linkage(&*ISSUER_DOC, &c, &Url::parse(domain).unwrap(), &Default::default()).is_ok());
+      }
       "accepted"
     }
   }
